@@ -307,4 +307,14 @@ fn main() {
         println!("validates: {}", wasmparser::validate(&b).is_ok());
         show("S24", &b);
     });
+    run("S25 finish_component after an import was added to that module (C12)", || {
+        let w = wat::parse_str(r#"(component (core module (func)))"#).unwrap();
+        let mut c = wirm::Component::parse(&w, false).unwrap();
+        let ty = c.modules[0].types.add_func_type(&[], &[], None);
+        c.modules[0].add_import_func("env".into(), "imp".into(), ty);
+        let mut fb = FunctionBuilder::new(&[], &[]);
+        fb.nop();
+        let r = catch_unwind(AssertUnwindSafe(move || { let id = fb.finish_component(&mut c, ModuleID(0)); (id, c.encode()) }));
+        match r { Ok((id, b)) => { println!("built function id {:?}", id); println!("{}", wasmprinter::print_bytes(&b).unwrap()); }, Err(_) => println!("finish_component PANICKED") }
+    });
 }
